@@ -121,7 +121,7 @@ func ExecRun(t *testing.T, spec RunSpec) (res RunResult) {
 	res.Faults = w.Faults
 	res.Probes = w.Probes
 	res.Hash = w.Hash()
-	res.ActHash = w.actSeq
+	res.ActHash = mix64(w.actSeq, uint64(spec.Param)) // sweep cases of one base run are distinct cases
 	res.Tape = tape.Vals
 	res.Labels = tape.Labels
 	res.Inconcl = w.Inconcl
@@ -157,7 +157,7 @@ func gcBetweenRuns() {
 
 // RunFlow executes the general client scenario for one incarnation.
 func RunFlow(w *World, spec *RunSpec, tune func(f *Flow)) *Flow {
-	f := &Flow{W: w, byTopic: map[string]*Pub{}, byID: map[uint16]*Pub{}, reqByMarker: map[string]*Req{}, Owned: map[uint16]int{}, OnlineConn: -1}
+	f := &Flow{W: w, byTopic: map[string]*Pub{}, byID: map[uint16]*Pub{}, reqByMarker: map[string]*Req{}, handed: map[uint32][]HandedRef{}, Owned: map[uint16]int{}, OnlineConn: -1}
 	w.X = f
 	f.O = drawFlowOpts(w.Tape, spec.Thorough)
 	if tune != nil {
@@ -182,15 +182,20 @@ func RunFlow(w *World, spec *RunSpec, tune func(f *Flow)) *Flow {
 	f.adopted = map[int]bool{}
 	f.Carry = map[[2]int]bool{}
 	w.StopParam = -1
-	if f.O.Generations > 1 {
+	if f.O.Generations > 1 && !f.O.StopWhenPublished {
 		w.StopParam = spec.Param - 1 // Param 0: no stop
+	}
+	if f.HoldFinalAcks {
+		w.Broker.Hold = func(c *Conn, p Packet) bool {
+			return p.Type == PUBACK || p.Type == PUBCOMP
+		}
 	}
 	for g := 1; g <= f.O.Generations; g++ {
 		if g > 1 {
-			f.prepareAdoption()
 			if f.BetweenGens != nil {
 				f.BetweenGens(f, g)
 			}
+			f.prepareAdoption()
 			w.StopParam = -1
 			if g < f.O.Generations && f.O.StopW == 0 {
 				// later stops land at a drawn storage-operation boundary
@@ -423,7 +428,7 @@ func (f *Flow) stuckWhere() string {
 }
 
 func allMonitors() []Monitor {
-	return []Monitor{&monC12{}, &monC01{}, &monC02{}, &monC03{}, &monC04{}, &monC05{}, &monC06{}, &monC07{}, &monC08{}, &monC10{}, &monC11{}, &monC14{}, &monC17{}, &monC18{}}
+	return []Monitor{&monC12{}, &monC15{}, &monC16{}, &monC01{}, &monC02{}, &monC03{}, &monC04{}, &monC05{}, &monC06{}, &monC07{}, &monC08{}, &monC10{}, &monC11{}, &monC14{}, &monC17{}, &monC18{}}
 }
 
 // flowFamily builds a family around the general flow. touched names the probes
@@ -437,7 +442,7 @@ func flowFamily(tune func(f *Flow), touched ...string) func(w *World, spec *RunS
 			}
 		})
 		res.Summary = f.summary()
-		if spec.Param == 0 && f.O.Generations > 1 {
+		if spec.Param == 0 && f.O.Generations > 1 && res.Sweep == 0 {
 			res.Sweep = 2 * f.Gen1Ops
 		}
 		for _, p := range touched {
@@ -568,6 +573,63 @@ func init() {
 		f.O.Budget += 4
 		f.O.Backoff = !f.W.Tape.Flip("nobackoff10", 250)
 	}, "write_break", "short_write_timeout", "backoff_checked")})
+	register("C16", Family{Name: "damage", Weight: 1, Run: flowFamily(func(f *Flow) {
+		restartTune(-1)(f)
+		o := &f.O
+		o.Generations = 2
+		o.StopW = 2
+		o.RWMin, o.RWMax = 100*time.Millisecond, time.Second
+		o.PerPub = 2 + f.W.Tape.Draw("perpub16", 5)
+		o.Inbound = f.W.Tape.Draw("nin16", 4)
+		o.InQ = [3]int{0, 1, 3}
+		f.BetweenGens = func(f *Flow, gen int) {
+			n := 1 + f.W.Tape.Draw("ndamage", 3)
+			f.drawDamage(n, nil)
+			f.addStray(f.W.Tape.Draw("nstray", 3))
+		}
+	}, "damaged_session_recovered")})
+	register("C15", Family{Name: "single-byte", Weight: 1, Sweep: true, Run: func(w *World, spec *RunSpec, res *RunResult) {
+		flowFamily(func(f *Flow) {
+			o := &f.O
+			o.Generations = 2
+			o.FaultFreeAfterStop = true
+			o.Clean = false
+			o.Budget = 0
+			o.Publishers = 1
+			o.PerPub = 1 + f.W.Tape.Draw("perpub15", 3)
+			o.BigPayload = 0
+			o.ALOMax, o.EOMax = 64, 64
+			o.Inbound = 0
+			o.StopWhenPublished = true
+			o.ReadBuf = 4096
+			// final acknowledgements are withheld in the first incarnation,
+			// so that PUBLISH and PUBREL records are pending at the stop
+			f.HoldFinalAcks = true
+			f.BetweenGens = func(f *Flow, gen int) {
+				f.W.Broker.Hold = nil
+				f.W.Broker.Held = nil
+				cases := f.damageCases()
+				res.Sweep = len(cases)
+				if spec.Param > 0 && spec.Param <= len(cases) {
+					f.applyDamage(cases[spec.Param-1])
+				} else if spec.Param == 0 && len(cases) > 0 {
+					// the base run samples one case
+					f.applyDamage(cases[f.W.Tape.Draw("case", len(cases))])
+				}
+			}
+		}, "damage_reported")(w, spec, res)
+	}},
+		Family{Name: "load-damage", Weight: 1, Run: flowFamily(func(f *Flow) {
+			restartTune(-1)(f)
+			o := &f.O
+			o.Generations = 1 + f.W.Tape.Draw("gens15", 2)
+			o.StopW = 1
+			o.Disk.CorruptLoad = 150
+			o.Budget = 2 + f.W.Tape.Draw("budget15", 4)
+			o.Inbound = f.W.Tape.Draw("nin15", 3)
+			o.InQ = [3]int{0, 1, 3}
+			o.FaultFreeAfterStop = false
+		}, "load_damaged")})
 	closeTune := func(f *Flow) {
 		o := &f.O
 		o.Closers = 1 + f.W.Tape.Draw("nclosers", 3)
